@@ -106,6 +106,7 @@ int vp_case(Choice& c, Report& rep) {
   HeapBuf<float> in((size_t)fs * ch);
   c05::OutBuf out(M, 1), rout(M, 0);
   int64_t bytes = 0, ref_bytes = 0;
+  bool ref_ok = true;
   int n_mode[3] = {0, 0, 0}, n_small = 0;
   const bool low_budget = c05::cbr_round_bytes(bitrate, fs, Fs) < 3 || (int64_t)bitrate * fs < 3ll * 8 * Fs || (cu::DUR400[dur] > 8 && bitrate < 2400);
   for (int i = 0; i < ntotal; i++) {
@@ -117,11 +118,14 @@ int vp_case(Choice& c, Report& rep) {
     memcpy(in.p, pcm.data() + (size_t)i * fs * ch, sizeof(float) * (size_t)fs * ch);
     const int Mi = M;
     int len = opus_encode_float(enc.p, in.p, fs, out.data(), Mi);
-    int rlen = ref_opus_encode_float(ref.p, in.p, fs, rout.data(), Mi);
+    int rlen = ref_ok ? ref_opus_encode_float(ref.p, in.p, fs, rout.data(), Mi) : 0;
+    // the frozen snapshot still has finding F13 (OPUS_INTERNAL_ERROR for a >1275-byte speech-layer frame inside a
+    // multi-frame packet): that is the reference failing, not the tree, so only the reference-relative clause is dropped
+    if (rlen == OPUS_INTERNAL_ERROR) { rep.label("frozen-encoder-internal-error(F13)"); ref_ok = false; rlen = 0; }
     rep.count(2);
     VP_REQUIRE(out.guard_damage() < 0, "c05:guard-bytes-overwritten", "frame %d", i);
     VP_REQUIRE(len >= 1 && len <= Mi, "c05:length-out-of-range", "frame %d: ret %d, M %d (Fs=%d ch=%d %gms bitrate %d)", i, len, Mi, Fs, ch, cu::DUR400[dur] * 2.5, bitrate);
-    VP_REQUIRE(rlen >= 1 && rlen <= Mi, "c05:ref-length-out-of-range", "frame %d: reference ret %d", i, rlen);
+    VP_REQUIRE(!ref_ok || (rlen >= 1 && rlen <= Mi), "c05:ref-length-out-of-range", "frame %d: reference ret %d", i, rlen);
     if (i < npre) continue;
     c05::PktInfo pi;
     VP_REQUIRE(c05::inspect(out.data(), len, Fs, pi) && pi.samples == fs, "c05:invalid-packet", "frame %d len %d", i, len);
@@ -133,7 +137,7 @@ int vp_case(Choice& c, Report& rep) {
 #undef BOTH
   const double seconds = (double)nframes * fs / Fs;
   const double rate = 8.0 * bytes / seconds, ref_rate = 8.0 * ref_bytes / seconds;
-  const double ratio = rate / bitrate, vs_ref = ref_bytes ? (double)bytes / ref_bytes : 1.0;
+  const double ratio = rate / bitrate, vs_ref = (ref_ok && ref_bytes) ? (double)bytes / ref_bytes : 1.0;
   const char* cls = low_budget ? "low-budget" : rate_class(n_mode[0], n_mode[1], n_mode[2], dur, bitrate, ch);
   rep.labelf("class:%s", cls);
   rep.label(n_mode[0] >= n_mode[1] && n_mode[0] >= n_mode[2] ? "mode:silk" : n_mode[1] >= n_mode[2] ? "mode:hybrid" : "mode:celt");
